@@ -1042,6 +1042,10 @@ impl SettlementService {
                         appended_plurals.push(appended_ref);
                     }
                 }
+                #[cfg(feature = "echo_verif")]
+                if crate::verif::fail_point("settlement.exec") {
+                    return Err(SettlementError::StrandNotFound(plan.strand_id));
+                }
             }
 
             // The shell is the final fallible step: a failed settle restores
@@ -1055,6 +1059,10 @@ impl SettlementService {
                 &appended_imports,
             )?;
             let braid_shell = provenance.append_braid_shell(shell)?;
+            #[cfg(feature = "echo_verif")]
+            if crate::verif::fail_point("settlement.exec") {
+                return Err(SettlementError::StrandNotFound(plan.strand_id));
+            }
 
             Ok(SettlementResult {
                 plan,
